@@ -170,6 +170,9 @@ class World:
 
         return Value(copy.deepcopy(t[1]))
 
+    def b_raw(self, t):
+        return copy.deepcopy(t[1])
+
     def _default_arg(self, d):
         # a parameter-free template default is passed as a plain string so the
         # documented str -> Template conversion of Option is what gets exercised
